@@ -22,6 +22,7 @@ import Driver.C08
 import Driver.Dialer
 import Driver.C10
 import Driver.C04
+import Driver.C17
 
 open Corerad
 
@@ -43,7 +44,8 @@ def handlers : List (String × (List String → List String → Option Verdict))
   ("shut", Driver.C08.shut),
   ("d10", Driver.Dialer.d10), ("d11", Driver.Dialer.d11), ("rd", Driver.Dialer.rd),
   ("grp", Driver.C10.grp),
-  ("pth", Driver.C04.pth)
+  ("pth", Driver.C04.pth),
+  ("scr", Driver.C17.scr), ("api", Driver.C17.api), ("rt", Driver.C17.rt)
 ]
 
 def runLine (line : String) : String :=
